@@ -256,7 +256,9 @@ func (f *filter) forEachAvailableMigrationJobs(listOpts *client.ListOptions, han
 		}
 		found := false
 		for _, v := range expectedPhaseContexts {
-			if phase == v.phase && (!v.checkArbitration || f.checkJobPassedArbitration(job.UID)) {
+			// the annotation survives a restart of the descheduler, the in-memory set of passed jobs does not
+			if phase == v.phase && (!v.checkArbitration || f.checkJobPassedArbitration(job.UID) ||
+				job.Annotations[AnnotationPassedArbitration] == "true") {
 				found = true
 				break
 			}
